@@ -240,6 +240,7 @@ class Environment:
         environment's time reaches until.
 
         """
+        stop_event: Optional[Event] = None
         if until is not None:
             if not isinstance(until, Event):
                 # Assume that until is a number if it is not None and not an
@@ -260,17 +261,24 @@ class Environment:
                 until._ok = True
                 until._value = None
                 self.schedule(until, URGENT, at - self.now)
+                # The sentinel is private to this call: nobody else can wait
+                # for it, so stopping from inside its dispatch loses nobody.
+                until.callbacks.append(StopSimulation.callback)
 
             elif until.callbacks is None:
                 # Until event has already been processed.
                 return until.value
 
-            # if until is an event and it has not been processed.
-            until.callbacks.append(StopSimulation.callback)
+            else:
+                # Others may start waiting for this event at any time; stop
+                # only after step() has resumed every one of its waiters.
+                stop_event = until
 
         try:
             while True:
                 self.step()
+                if stop_event is not None and stop_event.callbacks is None:
+                    StopSimulation.callback(stop_event)
         except StopSimulation as exc:
             return exc.args[0]  # == until.value
         except EmptySchedule:
